@@ -400,6 +400,11 @@ func TestRace(t *testing.T) {
 	fmt.Println("RACE-PASS rounds", rounds)
 }
 
+var (
+	inflightSlot int
+	inflightName string
+)
+
 func TestCheck(t *testing.T) {
 	r := vk.New("C09", "exploration")
 	quick := r.Quick()
@@ -485,8 +490,9 @@ func TestCheck(t *testing.T) {
 			r.HarnessError("scenario %s: sequential reference run is not clean: %s", sc.name, ref)
 			continue
 		}
+		inflightSlot, inflightName = shard, sc.name
 		cfg := schedx.Config{Name: sc.name, Body: sc.body, Preemptions: bound, Deadline: time.Now().Add(r.Left() / time.Duration(len(items)-i)),
-			OnExec: vk.Beat, Shard: shard, Shards: shards,
+			OnExec: vk.Beat, OnRun: func(p []int) { vk.Inflight(inflightSlot, inflightName, []string{fmt.Sprint(p)}) }, Shard: shard, Shards: shards,
 			Check: func(out string, dl bool, choices []int) error {
 				if dl {
 					return &viol{vk.Violationf("deadlock:"+sc.name[:2], "deadlock under schedule %v: %s", choices, out), choices}
